@@ -502,6 +502,10 @@ def run(ctx):
     # the small accessors and pass-through wrappers the rules above look through by name return what their names say (rules/accessors.py)
     from rules import accessors as _acc
     _acc.rule_accessors(ctx, "C09")
+    # "the image as of the last flush" is only meaningful if an in-place write either happens completely or not at all and the image grows only by
+    # appending (same rule instances as C16/write-at-window, C16/append-law)
+    c16.rule_write_at_window(ctx, R="C09/write-at-window")
+    c16.rule_append_law(ctx, R="C09/append-law")
 
 
 def thorough(ctx):
